@@ -266,13 +266,13 @@ impl Interp {
                     self.problems.push(format!("unrecognised loop statement `{}`", sm::tsc(l)));
                 }
                 syn::Stmt::Expr(e, _) => match e {
-                    syn::Expr::If(i) => {
-                        // if let Some(default) = default { A } else { B }
-                        if let syn::Expr::Let(l) = &*i.cond {
-                            let scrut = sm::tsc(&l.expr);
-                            if names.get(&scrut).map(|s| s.as_str()) == Some("default?") && sm::tsc(&l.pat).starts_with("Some(") {
+                    syn::Expr::If(_) | syn::Expr::Match(_) => {
+                        // if let Some(default) = default { A } else { B }   (or its match form)
+                        if let Some(il) = sm::if_let_form(e) {
+                            let scrut = sm::tsc(il.scrut);
+                            if names.get(&scrut).map(|s| s.as_str()) == Some("default?") && sm::tsc(il.pat).starts_with("Some(") {
                                 let mut ids = vec![];
-                                sm::pat_idents(&l.pat, &mut ids);
+                                sm::pat_idents(il.pat, &mut ids);
                                 let mut n2 = names.clone();
                                 if let Some(d) = ids.first() {
                                     n2.insert(d.clone(), "default".into());
@@ -280,19 +280,15 @@ impl Interp {
                                 if filt != "all" {
                                     self.problems.push("nested default tests".into());
                                 }
-                                self.loop_body(&i.then_branch, src, "withdef", &mut n2);
-                                if let Some((_, el)) = &i.else_branch {
-                                    if let syn::Expr::Block(b) = &**el {
-                                        let mut n3 = names.clone();
-                                        self.loop_body(&b.block, src, "nodef", &mut n3);
-                                    } else {
-                                        self.problems.push("unrecognised else branch".into());
-                                    }
+                                self.loop_body(il.then_block, src, "withdef", &mut n2);
+                                if let Some(b) = il.else_block {
+                                    let mut n3 = names.clone();
+                                    self.loop_body(b, src, "nodef", &mut n3);
                                 }
                                 continue;
                             }
                         }
-                        self.problems.push(format!("unrecognised condition `{}` in a conversion loop", sm::tsc(&i.cond)));
+                        self.problems.push(format!("unrecognised condition in a conversion loop: `{}`", sm::tsc(e).chars().take(60).collect::<String>()));
                     }
                     syn::Expr::MethodCall(mc) if mc.method == "push" && mc.args.len() == 1 => {
                         let v = sm::tsc(&mc.receiver);
